@@ -16,6 +16,7 @@ from __future__ import annotations
 
 import collections
 from collections.abc import Iterable, Sequence
+import copy
 import dataclasses
 import enum
 import itertools
@@ -652,8 +653,12 @@ class ConfusionMatrixAggFn(base.AggregateFn):
     ):
       raise ValueError(f'Global vocab is needed for "{self._average}" average.')
     # Skips the empty states, e.g., create_state() of a shard without inputs.
+    states = list(states)
     iter_acc = (state for state in states if state is not None)
     result = next(iter_acc, None)
+    if result is not None and result is not states[0]:
+      # Only the first state may be modified: accumulates into a copy.
+      result = copy.deepcopy(result)
     for accumulator in iter_acc:
       result += accumulator
     return result
